@@ -234,6 +234,9 @@ func runC17(r *fw.Run) {
 	defer func() {
 		r.Rule("C17-R15", "the introspection generator calls the partial value accessors (ast.Document.ValueContentBytes/String, which panic for five of the nine value kinds) only after a test of the value's kind that admits their domain")
 		partialValueAccessorsGuarded(r, "C17-R15", []string{"introspection"}, 2)
+		r.Rule("C17-R16", "in the introspection generator and the value importer the converter uses, the ref of an ast.Value is handed to an accessor of kind K (doc.<K>Value…(v.Ref), doc.<K>Values[v.Ref]) only where v.Kind is known to be K")
+		n := kindRefAgreement(r, "C17-R16", []string{"introspection", "astimport"}, nil)
+		r.Expect("C17-R16", "kind-specific uses of a value's ref", n, 8)
 	}()
 	defer c17PlanClosuresAreStateless(r)
 	defer func() {
